@@ -330,6 +330,28 @@ func TestVerif_C17(t *testing.T) {
 					e.revoked = true
 				}
 			},
+			"onDiscardedBranch": func(t *rapid.T) {
+				// a create / revoke executed on a branch of the state that is thrown away (a
+				// simulation, a transaction that fails later): nothing of it may be visible afterwards
+				o := rapid.IntRange(0, 2).Draw(t, "owner")
+				c := c17Pool[o][rapid.IntRange(0, len(c17Pool[o])-1).Draw(t, "cert")]
+				cctx, _ := ctx.CacheContext()
+				if rapid.Bool().Draw(t, "revoke") {
+					guard("RevokeCertificate(discarded)", func() { _ = k.RevokeCertificate(cctx, types.CertID{Owner: c17Owners[o], Serial: *c.serial}) })
+					logop("discarded:revoke(owner%d,%s)", o, c.serial)
+				} else {
+					guard("CreateCertificate(discarded)", func() { _ = k.CreateCertificate(cctx, c17Owners[o], c.cert, c.pub) })
+					logop("discarded:create(owner%d,%s)", o, c.serial)
+				}
+				kk := c17Key(o, c.serial)
+				var resp types.CertificateResponse
+				var found bool
+				guard("GetCertificateByID", func() { resp, found = k.GetCertificateByID(ctx, types.CertID{Owner: c17Owners[o], Serial: *c.serial}) })
+				e, exists := model[kk]
+				if found != exists || (found && (resp.Certificate.State == types.CertificateRevoked) != e.revoked) {
+					fail("c17-discarded-branch-visible", "after an operation on a discarded branch, %s is found=%v state=%s; by the committed history it is registered=%v revoked=%v", kk, found, resp.Certificate.State, exists, exists && e.revoked)
+				}
+			},
 			"get": func(t *rapid.T) {
 				o := rapid.IntRange(0, 2).Draw(t, "owner")
 				c := c17Pool[o][rapid.IntRange(0, len(c17Pool[o])-1).Draw(t, "cert")]
